@@ -551,6 +551,8 @@ def run_check(prop, tier, replay=None, label=None):
                 key = {k: sc[k] for k in ("n", "single", "slice", "lazy", "wrap", "fail", "selfOpt", "sliceOpt", "order", "regOrder", "kinds", "lookups")}
                 nontrivial = any(sc["single"]) or any(sc["slice"])
                 run.count_case(key, nontrivial)
+        if prop in ("C03", "C04") and replay is None:
+            drift += retry_phase(run, prop, tier, workdir, binary, rng)
         if prop == "C09" and replay is None:
             # C09 also quantifies over unsatisfiable injection points and over loader / Init / runner faults:
             # the same property operators, on the resolution pipeline (Resolve.tla) and on App.Run (App.tla)
@@ -598,6 +600,81 @@ def run_check(prop, tier, replay=None, label=None):
         return run.finish()
     finally:
         vlib.rm(workdir)
+
+
+def retry_phase(run, prop, tier, workdir, binary, rng):
+    """C03 / C04 across a failed attempt and its retry: lazy components on cycles, ONE transient fault (fires only while nothing
+    has failed yet), substitution modes, repeated post-run lookups.  Verdict: M_C03_RetryNoStale (whoever was (re-)created during or
+    after the target's successful attempt holds its published version).  The survivors of the failed attempt are the recorded
+    finding F16 (M_F16_SurvivorSeesFinal)."""
+    bd = os.path.join(workdir, "retry")
+    os.makedirs(bd)
+    vlib.stage_specs(bd, ["Container.tla", "TraceContainer.tla", "MonitorContainer.tla"])
+    scs = []
+    k = 0
+    for n, cnt in ([(2, 260), (3, 260)] if tier == "quick" else [(2, 2500), (3, 5000), (4, 2500)]):
+        for _ in range(cnt):
+            k += 1
+            sc = el.rand_scenario(rng, n, p_edge=rng.choice([0.5, 0.8]), p_slice=0.2, wraps=rng.choice([0.4, 0.7]), sid="%s-retry%d" % (prop, k), ilooks=0)
+            sc["lazy"] = list(range(1, n + 1))                      # nothing is created by the start itself: Run succeeds
+            sc["fail"] = ["none"] * n
+            sc["mode"] = ["normal"] * n
+            sc["runners"], sc["rorder"], sc["procs"], sc["prewire"] = [], [], [], [[] for _ in range(n)]
+            who = rng.randrange(n)
+            sc["fail"][who] = rng.choice(["resolve", "before", "aps", "init", "init", "after"])
+            sc["once"] = [i == who for i in range(n)]
+            first = rng.randint(1, n)
+            sc["lookups"] = [first, first] + [rng.randint(1, n) for _ in range(rng.randint(0, 2))]
+            sc["plainRig"] = False
+            scs.append(sc)
+    by_n = {}
+    for sc in scs:
+        by_n.setdefault(sc["n"], []).append(sc)
+    drift = 0
+    for n, group_scs in sorted(by_n.items()):
+        tr = el.run_engine(binary, bd, group_scs, name="retry%d" % n)
+        groups = el.split_trace(tr)
+        os.remove(tr)
+        if len(groups) != len(group_scs):
+            raise vlib.Infra("harness produced %d groups for %d scenarios" % (len(groups), len(group_scs)))
+        st, fails = el.validate_groups(bd, groups, "MonitorContainer", dict(N=n), MON_INV[prop] + ["M_C03_RetryNoStale"], MON_PROPS[prop], "rmon%d" % n)
+        stk, known = dict(states=0, generated=0), []
+        if prop == "C03":      # the recorded finding F16 is a C03 finding: its operator is evaluated by the C03 check only
+            stk, known = el.validate_groups(bd, groups, "MonitorContainer", dict(N=n), ["M_F16_SurvivorSeesFinal"], [], "rknown%d" % n, max_failures=5)
+        consts = dict(N=n, MaxLookups=12, Scenarios="<- TraceScenarios", **FIX)
+        st2, fails2 = el.validate_groups(bd, groups, "TraceContainer", consts, MC_INV[prop], TR_PROPS[prop], "rconf%d" % n)
+        run.cov["states"] += st["states"] + st2["states"] + stk["states"]
+        run.cov["transitions"] += st["generated"] + st2["generated"] + stk["generated"]
+        run.cov["traces_validated_against_impl"] += len(groups)
+        for f in fails:
+            sc = el.scenario_of(groups[f["group"]])
+            if f["kind"] == "postcondition":
+                raise vlib.Infra("monitor could not consume a retry trace (scenario %s): %s" % (sc["id"], f["tlc"][:500]))
+            report(run, prop, "monitor", f, sc, groups[f["group"]])
+        for f in known:
+            sc = el.scenario_of(groups[f["group"]])
+            if f["kind"] == "postcondition":
+                raise vlib.Infra("monitor could not consume a retry trace (scenario %s): %s" % (sc["id"], f["tlc"][:500]))
+            for kf in vlib.known_for("C03"):
+                if kf.get("signature", {}).get("operator") == f["name"]:
+                    run.known(kf, "scenario %s" % sc["id"])
+                    break
+            else:
+                report(run, prop, "monitor", f, sc, groups[f["group"]])
+        for f in fails2:
+            sc = el.scenario_of(groups[f["group"]])
+            if f["kind"] == "postcondition":
+                drift += 1
+                if drift <= 3:
+                    ev = json.loads(groups[f["group"]][min(f["line"], len(groups[f["group"]])) - 1])
+                    ev.pop("st", None)
+                    vlib.log("DRIFT module=Container (retry) scenario=%s line=%d next_event=%s" % (sc["id"], f["line"], json.dumps(ev)))
+            else:
+                report(run, prop, "conformance", f, sc, groups[f["group"]])
+        for g in groups:
+            sc = el.scenario_of(g)
+            run.count_case({kk: sc[kk] for kk in ("n", "single", "slice", "wrap", "fail", "once", "lookups", "order")}, True)
+    return drift
 
 
 def report(run, prop, layer, f, sc, group):
